@@ -100,8 +100,9 @@ struct verif_atomic {
     T load(memory_order o = memory_order_seq_cst) const volatile noexcept { return const_cast<const verif_atomic*>(this)->load(o); }
     void store(T v, memory_order o = memory_order_seq_cst) noexcept {
         ::verif::pre(::verif::K_STORE, &a, (int)o);
+        T old = a.load(memory_order_relaxed);          // safe: the caller holds the baton
         a.store(v, o);
-        ::verif::post(::verif::K_STORE, &a, (int)o, ::verif::bits_of(v), 0, 1);
+        ::verif::post(::verif::K_STORE, &a, (int)o, ::verif::bits_of(v), ::verif::bits_of(old), 1);
     }
     operator T() const noexcept { return load(); }
     T operator=(T v) noexcept { store(v); return v; }
